@@ -58,6 +58,30 @@ Theorem C13_list_roundtrip_partial :
 Proof. exact list_roundtrip_lemma. Qed.
 Print Assumptions C13_list_roundtrip_partial.
 
+(* T2 for List(subtype = ANY type), tuple or frozenset: if every item round-trips on its
+   own through a single-line, backslash-free, non-empty text ([items_rt]), the list does. *)
+Theorem C13_list_roundtrip_any_subtype :
+  forall so o opt uq sub raw v,
+    deserialize o (TList opt uq sub) raw = Ok v ->
+    (forall vs, v = VTuple vs \/ v = VSet vs -> items_rt so o sub vs) ->
+    exists s, serialize so o false (TList opt uq sub) v = SStr s
+              /\ deserialize o (TList opt uq sub) s = Ok v.
+Proof. exact list_roundtrip_gen. Qed.
+Print Assumptions C13_list_roundtrip_any_subtype.
+
+(* Instance for a non-scalar subtype: List of Pair of String/Secret halves (as file/media_dirs
+   is meant to be read): every item in range, unambiguous and plain => the list round-trips. *)
+Theorem C13_list_of_pairs_roundtrip_partial :
+  forall so o, str_oracles_ok so o ->
+  forall lopt uq opt optpair sep ta tb raw v,
+    stringish ta = true -> stringish tb = true -> sep <> [] -> ~ In BS sep ->
+    deserialize o (TList lopt uq (TPair opt optpair sep ta tb)) raw = Ok v ->
+    (forall vs, v = VTuple vs \/ v = VSet vs -> Forall (pair_item_ok so o opt optpair sep ta tb) vs) ->
+    exists s, serialize so o false (TList lopt uq (TPair opt optpair sep ta tb)) v = SStr s
+              /\ deserialize o (TList lopt uq (TPair opt optpair sep ta tb)) s = Ok v.
+Proof. exact list_of_pairs_roundtrip. Qed.
+Print Assumptions C13_list_of_pairs_roundtrip_partial.
+
 Example C13_list_hypothesis_satisfiable :
   items_plain law_so law_o (TString false None None) [VStr [97; 98]; VStr [99; 32; 100]].
 Proof. exact ex_items_plain. Qed.
